@@ -38,6 +38,8 @@ History = list of [op, args]:
   ContainerFinishes [a, g, marker]    MonitorCleanup [a, g]
   CleanupCompletes [k, i, g]          ManagerRestart []     NodeStart []
   Deliver []   CleanupStart []   CleanupEvent []   (cleanup service, extension)
+  Crash [k]    the manager is killed before the k-th os.symlink/replace/rename/
+               link call inside the handler of the next event, and restarted
 An op that is not possible in the real state (file not there, queue empty,
 container not supervised ...) is dropped; the effective history is returned.
 Trace lines carry the model's event names (Deliver -> OnCreated/OnDeleted/
@@ -105,6 +107,44 @@ services:
   restart: {limit: 0, interval: 60}
 endpoints: []
 """
+
+
+class Killed(BaseException):
+    """The manager process is killed (SIGKILL, OOM, power): raised out of the
+    k-th os-level link/rename call of a handler.  A BaseException, so that no
+    `except Exception` of the code under test sees it - as with a real kill,
+    nothing after the call runs (`finally` blocks aside)."""
+
+
+class _KillAt:
+    """Counts os.symlink / os.replace / os.rename / os.link calls and kills
+    before the k-th one is executed."""
+    NAMES = ('symlink', 'replace', 'rename', 'link')
+
+    def __init__(self, k):
+        self.k = k
+        self.n = 0
+        self._patches = []
+
+    def _wrap(self, real):
+        def call(*a, **kw):
+            self.n += 1
+            if self.n == self.k:
+                raise Killed()
+            return real(*a, **kw)
+        return call
+
+    def __enter__(self):
+        for name in self.NAMES:
+            p = mock.patch.object(os, name, self._wrap(getattr(os, name)))
+            p.start()
+            self._patches.append(p)
+        return self
+
+    def __exit__(self, *exc):
+        for p in reversed(self._patches):
+            p.stop()
+        return False
 
 
 class _StubRuntimeCls:
@@ -283,14 +323,19 @@ class Node:
             apps.append(dict(c=self._cont(d),
                              m=[m for m in MARKERS if os.path.exists(os.path.join(data, m))]))
         running, cleanup = [], []
+        # names starting with '.' are links for nobody: glob('*') in appcfgmgr and
+        # cleanup, s6-svscan and Cleanup._add/_remove_cleanup_app all skip them
+        # (staged temporaries of fs.symlink_safe left behind by a kill)
         for f in sorted(os.listdir(env.running_dir)):
+            if f.startswith('.'):
+                continue
             p = os.path.join(env.running_dir, f)
             if not os.path.islink(p):
                 raise tlc.MachineryError('running/%s is not a link' % f)
             running.append(dict(n=model_name(f), t=self._cont(os.path.basename(os.readlink(p)))))
         for f in sorted(os.listdir(env.cleanup_dir)):
             p = os.path.join(env.cleanup_dir, f)
-            if f.startswith('.tmp') and not os.path.islink(p):
+            if f.startswith('.'):
                 continue
             if not os.path.islink(p):
                 raise tlc.MachineryError('cleanup/%s is not a link' % f)
@@ -449,11 +494,32 @@ class Node:
         self._stop_cleanup()              # the cleanup service is one of those services
         for d in (env.running_dir, env.cleanup_dir):
             for f in os.listdir(d):
-                os.unlink(os.path.join(d, f))
+                if not f.startswith('.'):         # a shell's `rm running/*`
+                    os.unlink(os.path.join(d, f))
         self.tomb = []
         self._start_manager()
         self._watch()
         return 'NodeStart', []
+
+    def op_Crash(self, k):
+        """The manager is killed before the k-th os-level link/rename call of
+        the handler of the next event and started again (nothing is cleared).
+        If the handler makes fewer calls this is an ordinary delivery."""
+        relevant = [(ev, path) for ev, path in self.watch.event_list
+                    if ev in _KIND and self._relevant(path)]
+        if not relevant:
+            return None
+        ev, path = relevant[0]
+        base = os.path.basename(path)
+        label = [_EVNAME[_KIND[ev]], READY if base == READY else model_name(base)]
+        try:
+            with _KillAt(int(k)):
+                res = self.op_Deliver()
+        except Killed:
+            self._start_manager()
+            self._watch()
+            return 'Crash', label
+        return res
 
     def op_Deliver(self):
         """AppCfgMgr.run(): watch.process_events - one event."""
@@ -487,7 +553,7 @@ def _apply(node, op, args, late, svc=False):
     return getattr(node, 'op_' + op)(*args)
 
 
-def enabled_ops(post, instances, maxgen, gens, late, svc=False):
+def enabled_ops(post, instances, maxgen, gens, late, svc=False, crash=False):
     """Ops possible in the projected state `post` (for the online random
     generator), as (weight, op, args)."""
     ops = []
@@ -525,11 +591,16 @@ def enabled_ops(post, instances, maxgen, gens, late, svc=False):
         ops.append((0.5, 'NodeStart', []))
     if post['pending']:
         ops.append((5.0 + 2 * len(post['pending']), 'Deliver', []))
+        if crash:
+            # kill points inside the handler: configure makes 4 link/rename calls
+            # (app.json, trace event, staged link, rename), terminate one
+            for k in (1, 2, 3, 4, 5, 7, 8, 11, 12):
+                ops.append((0.25 if k % 4 in (0, 3) else 0.08, 'Crash', [k]))
     return ops
 
 
 def replay(history=None, rng=None, depth=0, instances=('a1', 'a2'), maxgen=2, late=False,
-           svc=False):
+           svc=False, crash=False):
     """Run one history (or, with rng, generate one online) on a fresh node.
     svc: the cleanup service is part of the history (CleanupStart/CleanupEvent;
     invoke only through a configured cleaning app); implied by a history that
@@ -549,7 +620,7 @@ def replay(history=None, rng=None, depth=0, instances=('a1', 'a2'), maxgen=2, la
             else:
                 if k >= depth:
                     break
-                ops = enabled_ops(post, instances, maxgen, node.gens, late, svc)
+                ops = enabled_ops(post, instances, maxgen, node.gens, late, svc, crash)
                 op, args = rng.choices([(o, a) for _, o, a in ops],
                                        weights=[w for w, _, _ in ops])[0]
             k += 1
@@ -563,9 +634,12 @@ def replay(history=None, rng=None, depth=0, instances=('a1', 'a2'), maxgen=2, la
             if node.exc:
                 line['exc'] = node.exc
             lines.append(line)
-            eff.append(['Deliver' if res[0] in _EVNAME.values() else res[0],
-                        [] if res[0] in _EVNAME.values() else
-                        (res[1][:1] if res[0] == 'CacheCreate' else res[1])])
+            if res[0] == 'Crash' or (op == 'Crash' and res[0] in _EVNAME.values()):
+                eff.append(['Crash', list(args[:1])])       # replays as the same kill point
+            else:
+                eff.append(['Deliver' if res[0] in _EVNAME.values() else res[0],
+                            [] if res[0] in _EVNAME.values() else
+                            (res[1][:1] if res[0] == 'CacheCreate' else res[1])])
         return eff, lines
     finally:
         node.close()
@@ -576,6 +650,12 @@ def from_labels(labels):
     hist = []
     for name, args in labels:
         if name in ('Synchronize', 'Initial', 'Next', 'Init'):
+            continue
+        if name == 'Crash':
+            # the model cuts after k abstract effects (directory, link, ...); the
+            # real handler is cut before one of its os-level calls (configure: 1
+            # app.json, 2 trace event, 3 staged link, 4 rename; terminate: 1)
+            hist.append(['Crash', [{0: 1, 1: 3, 2: 4, 3: 5, 4: 8, 5: 12}.get(int(args[0]), 4)]])
             continue
         if name in ('OnCreated', 'OnDeleted', 'OnModified'):
             hist.append(['Deliver', []])
